@@ -193,6 +193,25 @@ def check_stream(case, stream, first, fails, res=None):
                 return
 
 
+def build_et(tree):
+    """builder tree (gen_xml.gen_tree) -> xml.etree.ElementTree element: string children become text / tail"""
+    import xml.etree.ElementTree as etree
+
+    def mk(n):
+        el = etree.Element(gen_xml.qname_text(*n['name']), dict((gen_xml.qname_text(*a), v) for a, v in n['attrs']))
+        last = None
+        for k in n['kids']:
+            if k['t'] == 'e':
+                last = mk(k)
+                el.append(last)
+            elif last is None:
+                el.text = (el.text or '') + k['s']
+            else:
+                last.tail = (last.tail or '') + k['s']
+        return el
+    return mk(tree)
+
+
 def oracle_case(case, res=None):
     """returns the first failure dict or None. case: {'kind':'doc','text':...} | {'kind':'tree','tree':...}
     | {'kind':'events','events':[wire events]}"""
@@ -227,6 +246,23 @@ def oracle_case(case, res=None):
             fails.append({'case': case, 'what': 'builder stream denotes the tree', 'expected': first, 'observed': got})
         else:
             check_stream(case, Stream(list(el.generate())), first, fails, res)
+    elif case['kind'] == 'et-tree':
+        # the same trees as ElementTree elements through genshi.input.ET (namespaces in `{ns}tag` names, no
+        # namespace events): "streams built programmatically from namespace-qualified names"
+        if not tree_in_domain(case['tree']):
+            if res is not None:
+                res.count('outside-domain')
+            return None
+        from genshi.input import ET
+        first = gen_xml.tree_events(case['tree'])
+        if not in_domain(first):
+            return None
+        events = list(ET(build_et(case['tree'])))
+        got = gen_xml.canon_events(events)
+        if got != first:
+            fails.append({'case': case, 'what': 'ET stream denotes the element tree', 'expected': first, 'observed': got})
+        else:
+            check_stream(case, Stream(events), first, fails, res)
     elif case['kind'] == 'bytes-doc':
         # the encoded output read by a parser that is NOT told the encoding (known finding C02-decl-encoding-echo)
         try:
@@ -976,6 +1012,16 @@ def shard(arg):
         res.count('tree:namespaces=%d' % min(len(nss), 5))
         if len(nss) > 1:
             res.nontrivial.add('tree/' + json.dumps(tree, sort_keys=True)[:200])
+        if i % 3 == 2:
+            # the same tree as an ElementTree element through ET(): oracle, and the filters' models on its stream
+            ecase = {'kind': 'et-tree', 'tree': tree}
+            res.evaluations += 1
+            res.count('et-tree:oracle')
+            f = oracle_case(ecase, res)
+            if f:
+                res.failures.append(f)
+            from genshi.input import ET
+            corr.add_events(list(ET(build_et(tree))), ecase, tag='-et')
         events = list(gen_xml.build(tree).generate())
         corr.add_events(events, case, tag='-builder')
         if i % 6 == 1:
@@ -1064,7 +1110,7 @@ def run(ctx):
         res.merge(r)
     res.rule = ('generated well-formed documents (nested / re-bound / undeclared default namespaces, several prefixes per URI, '
                 'mixed content, references, comments, PIs, CDATA, declaration, doctype) and builder trees from arbitrary qualified '
-                'names, each rendered unencoded and in utf-8, ascii, latin-1, utf-16 and re-read by expat; non-trivial = document '
+                'names (every third also as an ElementTree element through ET()), each rendered unencoded and in utf-8, ascii, latin-1, utf-16 and re-read by expat; non-trivial = document '
                 'with a re-bound/undeclared/aliased namespace, namespaced attribute, CDATA (every fourth document with runs of '
                 'adjacent character data: CDATA sections next to each other, to text and to references, empty sections, "]]>" '
                 'split over two sections) or reference (distinct by construct set '
@@ -1145,7 +1191,7 @@ def events_to_doc(w):
 
 def replay(ctx, case):
     kind = case.get('kind')
-    if kind in ('doc', 'tree', 'events', 'bytes-doc'):
+    if kind in ('doc', 'tree', 'events', 'bytes-doc', 'et-tree'):
         return oracle_case(case)
     if kind == 'wild':
         # correspondence-only input (arbitrary event sequence): outside the property as it stands; judge the
